@@ -36,7 +36,9 @@ Invariants (all C17):
 - proof-verifies-iff-intact: verify is True for the reference branch of a leaf at
   its index, False for any other leaf / index / branch / root. (merkle_proof
   refuses a right child equal to its sibling, so even the padded last leaf of an
-  odd level verifies at one index only.)
+  odd level verifies at one index only. It also refuses, as documented, a branch
+  with an inner node that deserializes as a transaction -- 2^-24 per honest node:
+  probed as ``inner-node-reads-as-transaction``, not asserted.)
 - compact-equals-core, compact-inverse-on-canonical, target-never-rounds-up,
   work-equals-core, retarget-equals-core: refuse (overflow / negative / zero) or
   equal the arith_uint256 reference, for every timespan;
@@ -44,7 +46,9 @@ Invariants (all C17):
   liveness-light-client-served.
 Unreached by construction: 48-bit short-id collisions (probe ``short-id-collision``).
 Corrupted bytes reaching a parser may only raise library exceptions: stated as
-``ctx.check("C19", "only-library-exceptions", ...)`` for W4's lens.
+``ctx.check("C19", "only-library-exceptions", ...)`` for W4's lens; the size /
+weight / vsize identities of every mined block and transaction as
+``ctx.check("C18", "size-identities", ...)`` for W5's.
 """
 
 from __future__ import annotations
@@ -195,6 +199,9 @@ def _assemble(ctx: Ctx, bulk: gb.Bulk, height: int, prev_hash: bytes, stamp: int
         block.assert_valid_merkle_root()
         block.assert_valid_witness_commitment()
         block.assert_valid(REGTEST_POW_LIMIT_BITS)
+    for what, x in [("block", block)] + [("tx", t) for t in txs]:  # C18's size identities, for W5's lens
+        whole, stripped = len(x.serialize(include_witness=True, check_validity=False)), len(x.serialize(include_witness=False, check_validity=False))
+        ctx.check("C18", "size-identities", (x.size, x.weight, x.vsize) == (whole, 3 * stripped + whole, -(-(3 * stripped + whole) // 4)), lambda: f"{what}: size/weight/vsize {(x.size, x.weight, x.vsize)} for {whole}/{stripped} bytes", site=what)
     elements = {s for s in cb.out_scripts if s and s[0] != 0x6A}
     prev_scripts = []
     for g in gens:
@@ -335,7 +342,7 @@ def _relay(ctx: Ctx) -> None:  # noqa: C901, PLR0915
     partial: dict[tuple[str, bytes], dict[str, Any]] = {}
     accepted: dict[str, dict[bytes, Any]] = {n: {} for n in nodes}
     served: list[dict[str, Any]] = []  # per block, in chain order, by n1
-    light: dict[str, Any] = {"k": 0, "cfilter": None, "cfheaders": None, "filter_ok": set(), "proved": set(), "want": None, "watch": []}
+    light: dict[str, Any] = {"k": 0, "cfilter": None, "cfheaders": None, "filter_ok": set(), "proved": set(), "want": None}
 
     # -- links -----------------------------------------------------------------
     def corruptor(c: Any, payload: Any) -> Any:
@@ -468,6 +475,9 @@ def _relay(ctx: Ctx) -> None:  # noqa: C901, PLR0915
     def request(node: str, h: bytes, p: dict[str, Any]) -> None:
         if partial.get((node, h)) is not p:
             return  # filled, or given up and started again since this timer was set
+        if p["requests"] >= 3:
+            del partial[(node, h)]  # nobody answers for this announcement: wait for the next one
+            return
         p["requests"] += 1
         with ctx.must_succeed(P, "getblocktxn-builds", "getblocktxn"):
             data = GetBlockTxn(h, p["part"].missing_indexes).serialize()
@@ -596,9 +606,9 @@ def _relay(ctx: Ctx) -> None:  # noqa: C901, PLR0915
 
     def light_timer() -> None:
         k = light["k"]
-        if k >= n_blocks or (sim.now >= clean_from and light["rounds_clean"] >= 8):
-            return
-        if sim.now >= clean_from:
+        if k >= n_blocks or light["rounds_clean"] >= 8:
+            return  # done, or gave up: 8 rounds on one mined block with no fault left in the network
+        if k < len(chain) and sim.now >= clean_from:
             light["rounds_clean"] += 1
         if k not in light["filter_ok"]:
             ctl.send("light", "n1", ("getcf", k, None), "getcf")
@@ -607,7 +617,7 @@ def _relay(ctx: Ctx) -> None:  # noqa: C901, PLR0915
         sim.after(period, "light-timer", light_timer)
 
     def next_block() -> None:
-        light.update(k=light["k"] + 1, cfilter=None, cfheaders=None, want=None)
+        light.update(k=light["k"] + 1, cfilter=None, cfheaders=None, want=None, rounds_clean=0)
         if light["k"] < n_blocks:
             ctl.send("light", "n1", ("getcf", light["k"], None), "getcf")
 
@@ -664,6 +674,9 @@ def _relay(ctx: Ctx) -> None:  # noqa: C901, PLR0915
         i = m.txids.index(light["want"])
         intact = (index, branch) == (i, [s[::-1] for s in rm.branch(m.txids, i)])
         ok, verdict = _guarded(ctx, "merkle_proof.verify", lambda: merkle_proof.verify(txid, branch, index, m.block.header.merkle_root))
+        if intact and _inner_node_reads_as_tx(m.txids, i):
+            ctx.probe("inner-node-reads-as-transaction")  # the documented CVE-2017-12842 guard may refuse this honest branch
+            verdict = intact
         ctx.check(P, "proof-verifies-iff-intact", ok and verdict == intact, lambda: f"leaf {i} of {len(m.txids)}: verify says {verdict} for index {index}, branch intact={intact}", site="verify")
         strict(intact, "proof altered", "proof")
         if not intact:
@@ -680,6 +693,7 @@ def _relay(ctx: Ctx) -> None:  # noqa: C901, PLR0915
     sim.after(ch.draw(3 * period, "light.start"), "light-timer", light_timer)
     sim.run()
 
+    ctx.sample["chain"] = {"blocks": [len(m.block.transactions) for m in chain], "nodes": len(nodes), "malicious_relay": malicious, "height": height}
     ctx.log("end", f"blocks={len(chain)}", f"accepted={[len(a) for a in accepted.values()]}", f"served={len(served)}", f"proved={sorted(light['proved'])}", f"capped={sim.capped}")
     if sim.capped:
         ctx.probe("event-cap")
@@ -688,6 +702,23 @@ def _relay(ctx: Ctx) -> None:  # noqa: C901, PLR0915
             ctx.check(P, "liveness-blocks-accepted", all(m.hash in accepted[node] for m in chain), lambda: f"{node} holds {len(accepted[node])} of {len(chain)} blocks", site="relay")
         ctx.check(P, "liveness-light-client-served", light["k"] >= n_blocks, lambda: f"light client stopped at block {light['k']} of {n_blocks}", site="light")
     _pow_queries(ctx, stamps + [clock.read(sim.now)], 2)
+
+
+def _inner_node_reads_as_tx(txids: list[bytes], i: int) -> bool:
+    """Whether some 64-byte inner node on leaf i's path deserializes as a transaction: merkle_proof
+    documents that it refuses such a branch (about 2^-24 per node: one input, no output)."""
+    from btclib.tx import Tx  # noqa: PLC0415
+
+    h = txids[i]
+    for s in rm.branch(txids, i):
+        pair = s + h if i & 1 else h + s
+        try:
+            if Tx.parse(pair, check_validity=False).serialize(include_witness=True, check_validity=False) == pair:
+                return True
+        except BTClibException:
+            pass
+        h, i = rm.dsha(pair), i >> 1
+    return False
 
 
 def _proof_tampers(ctx: Ctx, m: Mined, i: int) -> None:
